@@ -501,6 +501,85 @@ def init_obligations(rep):
         v = pysym.Verdict(UNDECIDED, f'{type(e).__name__}: {e}')
     _emit(rep, 'C10.init.names-vs-dicts', v, fn, 'ensures integrations given as names and as {name, type: data} dicts yield the same lower-cased keys and databases')
 
+    # predictor catalog: list-of-dicts form and legacy {name: info} form yield the same lower-cased project names and model keys
+    def build_p(ex, form, with_project):
+        _install_lower(ex)
+        proj = pysym.mk_str('project')
+        info = {'integration_name': proj} if with_project else {}
+        if form == 'list':
+            info = dict(info, name='Pred')
+            pm = [info]
+        else:
+            pm = {'Pred': info}
+        planner = SymObj({QueryPlanner}, 'planner', prov='fresh')
+        clo = pysym.closure_of(QP, 'QueryPlanner.__init__')
+        clo.no_stub = True
+        ex.call_closure(clo, [planner], {'integrations': [], 'default_namespace': 'mindsdb', 'predictor_metadata': pm})
+        return planner
+
+    for with_project in (True, False):
+        def run_p(ex, with_project=with_project):
+            return (build_p(ex, 'list', with_project), build_p(ex, 'legacy', with_project))
+
+        def post_p(ex, o, with_project=with_project):
+            if o.kind != 'return':
+                return f'raises {o.value.__name__}'
+            want_proj = LOWER(z3.String('project')) if with_project else z3.StringVal('mindsdb')
+            for form, pl in zip(('list', 'legacy'), o.value):
+                projs = pl.fields['projects']
+                if not isinstance(projs, list):
+                    return f'[{form} form] projects = {projs!r}'
+                rest = [q for q in projs if not (isinstance(q, str) and q == 'mindsdb')]
+                if with_project:
+                    if len(rest) != 1:
+                        return f'[{form} form] projects = {projs!r}, expected the default namespace and the one project of the catalog'
+                    ok, _ = ex.valid(z(rest[0]) == want_proj, pc=o.pc)
+                    if not ok:
+                        return f'[{form} form] project name {rest[0]!r} is not the lower-cased project of the catalog entry (qualified model names written in another case are not recognised)'
+                elif rest or 'mindsdb' not in projs:
+                    return f'[{form} form] projects = {projs!r}, expected only the default namespace'
+                dbs = pl.fields['databases']
+                if not (isinstance(dbs, list) and len(dbs) == len(projs) and all(any(d is q for q in projs) for d in dbs)):
+                    return f'[{form} form] databases = {dbs!r} differ from projects {projs!r} (no integrations given)'
+                keys = list(pl.fields['predictor_info'].keys())
+                if len(keys) != 1:
+                    return f'[{form} form] predictor_info keys {keys!r}'
+                wk = LOWER(z3.Concat(z3.String('project'), z3.StringVal('.Pred'))) if with_project else None
+                if wk is not None:
+                    ok, _ = ex.valid(z(keys[0]) == wk, pc=o.pc)
+                    if not ok:
+                        return f'[{form} form] model key {keys[0]!r} is not lower(project.name)'
+                elif not (isinstance(keys[0], str) and keys[0] == 'mindsdb.pred'):
+                    return f'[{form} form] model key {keys[0]!r}, expected mindsdb.pred'
+            return None
+        ex = pysym.Executor()
+        try:
+            outs = ex.explore(run_p)
+            bad = next((r for r in (post_p(ex, o) for o in outs) if r), None)
+            v = pysym.Verdict(FAILED, bad) if bad else pysym.Verdict(PROVED, f'{len(outs)} path(s)', ex.solver_time)
+        except (Unsupported, PathLimit) as e:
+            v = pysym.Verdict(UNDECIDED, f'{type(e).__name__}: {e}')
+        _emit(rep, f'C10.init.predictors.list-vs-legacy.{"project" if with_project else "default"}', v, fn,
+              'ensures both catalog forms yield projects == [lower(project)] (default: the predictor namespace), databases likewise, model key lower(project.name)',
+              replay=replay_catalog_form)
+
+
+def replay_catalog_form():
+    from mindsdb_sql import parse_sql
+    from mindsdb_sql.planner import plan_query
+    from mindsdb_sql.planner.steps import ApplyPredictorStep
+    sql = 'select * from int1.tbl1 as t join Proj.pred as m'
+    out = {}
+    for form, pm in (('list', [{'name': 'pred', 'integration_name': 'Proj'}]), ('legacy', {'pred': {'integration_name': 'Proj'}})):
+        try:
+            p = plan_query(parse_sql(sql), integrations=['int1'], predictor_metadata=pm, default_namespace='mindsdb')
+            ap = [s for s in p.steps if isinstance(s, ApplyPredictorStep)]
+            out[form] = (ap[0].namespace, str(ap[0].predictor)) if ap else None
+        except Exception as e:
+            out[form] = f'{type(e).__name__}: {e}'[:80]
+    return {'input': sql + ' with the catalog entry {name: pred, integration_name: Proj} in list form and in legacy dict form', 'dialect': 'mindsdb',
+            'fires': out['list'] != out['legacy'] or out['list'] != ('proj', 'pred'), 'observed': repr(out), 'expected': "('proj', 'pred') for both forms"}
+
 
 # ------------------------------------------------------------------ bounded
 def tables_of(query):
@@ -614,6 +693,8 @@ def bounded(rep, tier):
 def check(rep, tier):
     from vlib import statecensus
     statecensus.obligations(rep, 'C10', 'planner')
+    from vlib import walkerdep
+    walkerdep.obligations(rep, tier, 'C10')
     rep.dropped = 'method bodies read with ast.parse; nested callback executed as a closure'
     rep.assume('str.lower is an idempotent function (uninterpreted)', 'planner.databases holds lower-cased names (C10.init)',
                'routing over table positions relies on query_traversal (C13 findings inherited)')
